@@ -445,6 +445,75 @@ func main() {
 			}
 		})
 
+		// The same with destinations that can do more than Write - a buffered writer with a Flush
+		// method of its own (bufio.Writer, wsutil.Writer), which also reads from readers and takes
+		// strings: after Reset the old destination is never touched again, in any way, and the new
+		// one sees exactly the calls a fresh writer's destination sees.
+		r.Part("E4b-wsflate.Writer.Reset-with-destinations-that-have-more-methods", func(t *explore.T) {
+			type op struct {
+				kind string
+				data string
+			}
+			alpha := []op{{"Write", "hello hello hello"}, {"Write", strings.Repeat("xyz", 500)}, {"Flush", ""}, {"Close", ""}}
+			apply := func(w *wsflate.Writer, o op) {
+				switch o.kind {
+				case "Write":
+					w.Write([]byte(o.data))
+				case "Flush":
+					w.Flush()
+				default:
+					w.Close()
+				}
+			}
+			var seqs [][]op
+			var rec func(s []op, d int)
+			rec = func(s []op, d int) {
+				seqs = append(seqs, append([]op{}, s...))
+				if len(s) == d {
+					return
+				}
+				for _, o := range alpha {
+					rec(append(s, o), d)
+				}
+			}
+			rec(nil, t.Pick(2, 3))
+			mk := func(w io.Writer) wsflate.Compressor { f, _ := flate.NewWriter(w, 6); return f }
+			for _, h := range seqs {
+				for _, q := range seqs {
+					if len(q) == 0 {
+						continue
+					}
+					h, q := h, q
+					t.Do(func() string { return fmt.Sprintf("history=%v Reset(other destination) post=%v", h, q) }, func() *explore.Fail {
+						d1 := &richDst{}
+						w := wsflate.NewWriter(d1, mk)
+						for _, o := range h {
+							apply(w, o)
+						}
+						before := len(d1.log)
+						d2 := &richDst{}
+						w.Reset(d2)
+						for _, o := range q {
+							apply(w, o)
+						}
+						d3 := &richDst{}
+						f := wsflate.NewWriter(d3, mk)
+						for _, o := range q {
+							apply(f, o)
+						}
+						if len(d1.log) != before {
+							return explore.Failf("flate-writer-touches-its-old-destination-after-Reset", "calls that arrived at the old destination after Reset: %v", d1.log[before:])
+						}
+						if got, want := strings.Join(d2.log, ";"), strings.Join(d3.log, ";"); got != want {
+							return explore.Failf("flate-writer-Reset-differs:calls-at-the-destination", "recycled: %s\nfresh:    %s", got, want)
+						}
+						return nil
+					})
+				}
+			}
+			t.Outcome("same-as-fresh")
+		})
+
 		r.Part("E5-wsflate.Reader.Reset", func(t *explore.T) {
 			comp := func(s string) []byte {
 				var b bytes.Buffer
@@ -1010,3 +1079,22 @@ func head(p []byte) []byte {
 	}
 	return p
 }
+
+// richDst is a destination with the optional methods buffered writers have; it logs every
+// call that reaches it.
+type richDst struct{ log []string }
+
+func (d *richDst) Write(p []byte) (int, error) {
+	d.log = append(d.log, fmt.Sprintf("Write(%x)", p))
+	return len(p), nil
+}
+func (d *richDst) Flush() error { d.log = append(d.log, "Flush()"); return nil }
+func (d *richDst) WriteString(s string) (int, error) {
+	d.log = append(d.log, fmt.Sprintf("WriteString(%x)", s))
+	return len(s), nil
+}
+func (d *richDst) WriteByte(c byte) error {
+	d.log = append(d.log, fmt.Sprintf("WriteByte(%x)", c))
+	return nil
+}
+func (d *richDst) Close() error { d.log = append(d.log, "Close()"); return nil }
